@@ -12,7 +12,7 @@
 From Coq Require Import List Bool String NArith.
 Import ListNotations.
 Require Import Aiuti.Options Aiuti.OptionsInv AiutiGen.T_Options.
-Require Import Aiuti.Case_C15 Aiuti.OptionsMon.
+Require Import Aiuti.Case_C15 Aiuti.OptionsMon Aiuti.OptionsRef Aiuti.OptionsRefInv Aiuti.OptionsRefBat.
 
 (* Every option a decorator accepts is re-bound under its own name by the
    `@deco(opt=...)` form, applied under its own name by the direct form, and is
@@ -129,7 +129,106 @@ Theorem monitor_sound_loops : forall cfg plan observed solo cross,
 Proof. exact loops_sound. Qed.
 Print Assumptions monitor_sound_loops.
 
+(* ONE options-form decorator object applied to TWO functions (buffer_until_timeout(timeout=...),
+   async_background_batcher(...)): completeness — when each function's trace, in both forms, is the
+   reference trace of that function's own part of the script, the monitor accepts; soundness — an
+   accepted case says that per function the options form equals the direct wrapping and passes the
+   single-object monitor (monitor_sound_buffer / monitor_sound_batcher apply) for that function's
+   own submissions / keys: each function has a buffer / batcher of its own. *)
+Theorem monitor_complete_reuse :
+  (forall (t : option N) (sc : list bufev2),
+     buf_wf (bproj 0 sc) = true -> buf_wf (bproj 1 sc) = true ->
+     let m0 := buf_trace t (bproj 0 sc) in let m1 := buf_trace t (bproj 1 sc) in
+     ok (CBuffer2 t sc m0 m0 m1 m1) = true) /\
+  (forall (cfg : ocfg) (sc : list bev2),
+     let m0 := trace_of (brun (resolve cfg) (cproj 0 sc)) in
+     let m1 := trace_of (brun (resolve cfg) (cproj 1 sc)) in
+     ok (CBatcher2 cfg sc m0 m0 m1 m1) = true).
+Proof. split; [exact buffer2_complete | exact batcher2_complete]. Qed.
+Print Assumptions monitor_complete_reuse.
+
+Theorem monitor_sound_reuse :
+  (forall t sc d0 e0 d1 e1, ok (CBuffer2 t sc d0 e0 d1 e1) = true ->
+     same_flushes d0 e0 /\ same_flushes d1 e1 /\
+     ok (CBuffer t (bproj 0 sc) e0 e0 e0) = true /\ ok (CBuffer t (bproj 1 sc) e1 e1 e1) = true) /\
+  (forall cfg sc d0 e0 d1 e1, ok (CBatcher2 cfg sc d0 e0 d1 e1) = true ->
+     d0 = e0 /\ d1 = e1 /\
+     ok (CBatcher cfg (cproj 0 sc) e0 e0 e0 0) = true /\ ok (CBatcher cfg (cproj 1 sc) e1 e1 e1 0) = true).
+Proof. exact reuse_sound. Qed.
+Print Assumptions monitor_sound_reuse.
+
+(* ---- the small reference semantics against the full component models ------------ *)
+
+(* BUFFER.  For EVERY timeout and EVERY script of submissions and pauses: run the full buffer
+   model (Buffer.v: daemon states, queue, join counter, event, waiters — the model of C03/C07/C08)
+   on the translated script — Sub a -> Submit p (Plain a) with a fresh producer id p, BAdv dt ->
+   Advance dt followed by FnOk when the advance started the function (the harness' function
+   returns at once); OptionsRef.buf_translate.  Its calls of the buffered function (instant, set of
+   arguments) are exactly the flushes of Options.buf_run: same instants, and each call receives
+   the set (as_set: strictly sorted, duplicates merged) of the arguments buf_run lists.
+   Time unit: Buffer.v mentions no concrete duration, so its clock is counted in fifths of a tick here. *)
+Theorem buffer_reference_refines_full_model : forall (T : N) (sc : list bufev),
+  full_flushes T sc = map (fun f => (fst f, as_set (snd f))) (buf_run T sc 0%N None).
+Proof. exact buffer_refines. Qed.
+Print Assumptions buffer_reference_refines_full_model.
+
+(* BATCHER.  Full statement wanted:  forall c sc, full_starts c sc = starts (brun c sc)  — the batch
+   starts (instant, keys) of the full batcher model (Batcher.v: queue collector, semaphore, futures,
+   retention cache and timers, callers — the model of C04/C09/C10/C11) on the translated script
+   (OptionsRef.translate: BCall k -> Call k None; BFin b -> BYield b key (Val b) for every item of the
+   running batch b, then BFinish b; Adv dt -> Advance dt) are those of Options.brun.
+   PROVED, by a simulation relation between the two state spaces (OptionsRefBat.Rs), for the two
+   sub-classes below; what is missing is exactly: scripts in which a batch function returns AND
+   retention_timeout > 0 (retained results and their expiry timers: Options keeps `RDone b expiry`
+   entries, Batcher.v a done future plus a call_later timer, and Batcher.advance walks the deadlines
+   one by one).  That part — and the per-caller answers for all of them — is evaluated by vm_compute
+   on every batcher / loops case of every run (Case_C15.ref_batcher_agree).
+   Time unit: Batcher.v mentions no concrete duration; its clock is counted in fifths of a tick here. *)
+
+(* (1) retention_timeout = 0 (the default), max_batch_size / max_concurrent_batches / batch_timeout
+   arbitrary, EVERY script of calls (same key in flight shared), batch-function returns and pauses:
+   collection by size and by batch_timeout, FIFO hand-over of the semaphore, release of the keys. *)
+Theorem batcher_reference_refines_full_model_ret0_partial : forall (c : bcfg) (sc : list bev),
+  cR c = 0%N -> full_starts c sc = starts (brun c sc).
+Proof. exact batcher_refines_ret0. Qed.
+Print Assumptions batcher_reference_refines_full_model_ret0_partial.
+
+(* (2) EVERY configuration (retention_timeout included) and every script of calls and pauses in which
+   no batch function returns. *)
+Theorem batcher_reference_refines_full_model_nofin_partial : forall (c : bcfg) (sc : list bev),
+  fin_free sc = true -> full_starts c sc = starts (brun c sc).
+Proof. exact batcher_refines_nofin. Qed.
+Print Assumptions batcher_reference_refines_full_model_nofin_partial.
+
 (* ---- non-vacuity ----------------------------------------------------------- *)
+Example batcher_refines_example :
+  let c := mkcfg 2 1 25%N 0%N in
+  let sc := [BCall 1; BCall 2; BCall 3; Adv 10%N; BCall 1; Adv 30%N; BCall 4; Adv 100%N] in
+  fin_free sc = true /\
+  translate c sc = [B.Call 1 None; B.Call 2 None; B.Call 3 None; B.Advance 10%N; B.Call 1 None;
+                    B.Advance 30%N; B.Call 4 None; B.Advance 100%N] /\
+  full_starts c sc = [(0%N, [1; 2])] /\ waitq (brun c sc) = [[(3, 2)]; [(4, 3)]].
+Proof. vm_compute. repeat split. Qed.
+
+Example batcher_refines_ret0_example :
+  let c := mkcfg 2 1 25%N 0%N in
+  let sc := [BCall 1; BCall 2; BCall 3; BCall 1; Adv 30%N; BFin 0; BCall 1; Adv 5%N; BFin 1; Adv 100%N; BFin 2] in
+  translate c sc = [B.Call 1 None; B.Call 2 None; B.Call 3 None; B.Call 1 None; B.Advance 30%N;
+                    B.BYield 0 1 (B.Val 0); B.BYield 0 2 (B.Val 0); B.BFinish 0; B.Call 1 None; B.Advance 5%N;
+                    B.BYield 1 3 (B.Val 1); B.BFinish 1; B.Advance 100%N; B.BYield 2 1 (B.Val 2); B.BFinish 2] /\
+  full_starts c sc = [(0%N, [1; 2]); (30%N, [3]); (55%N, [1])] /\
+  full_trace c sc = (trace_of (brun c sc), false).
+Proof. vm_compute. repeat split. Qed.
+
+Example buffer_refines_example :
+  let sc := [Sub 4; BAdv 10%N; Sub 1; BAdv 25%N; Sub 2; Sub 1; BAdv 10000%N] in
+  buf_translate 15%N sc =
+    [F.Submit 0 (F.Plain 4); F.Advance 10%N; F.Submit 1 (F.Plain 1); F.Advance 25%N; F.FnOk;
+     F.Submit 2 (F.Plain 2); F.Submit 3 (F.Plain 1); F.Advance 10000%N; F.FnOk] /\
+  full_flushes 15%N sc = [(25%N, [1; 4]); (50%N, [1; 2])] /\
+  buf_run 15%N sc 0%N None = [(25%N, [4; 1]); (50%N, [2; 1])].
+Proof. vm_compute. repeat split. Qed.
+
 (* well-formed scripts / plans exist and produce non-trivial accepted cases; the side conditions
    are needed: with an argument submitted twice the monitor's "last submission" is not defined by
    the script alone and it rejects the reference trace *)
@@ -156,6 +255,13 @@ Example batcher_zero_size_example :
   trace_of (brun (resolve (mkocfg (Some 0) None None None)) [BCall 1; BCall 2]) =
   ([(0%N, [1]); (0%N, [2])], [None; None]).
 Proof. vm_compute. reflexivity. Qed.
+
+Example reuse_example :
+  let sc := [BCall2 0 1; BCall2 1 1; BCall2 0 2; Adv2 300%N; BFin2 1 0; BFin2 0 0] in
+  cproj 1 sc = [BCall 1; Adv 300%N; BFin 0] /\
+  trace_of (brun (resolve (mkocfg (Some 2) None None None)) (cproj 0 sc)) = ([(0%N, [1; 2])], [Some (300%N, 0); Some (300%N, 0)]) /\
+  trace_of (brun (resolve (mkocfg (Some 2) None None None)) (cproj 1 sc)) = ([(256%N, [1])], [Some (300%N, 0)]).
+Proof. vm_compute. repeat split. Qed.
 
 Example plan_wf_example :
   let plan := [LSeg 0 [BCall 1; BCall 2]; LSeg 1 [BCall 1]; LSeg 0 [BFin 0]; LClose 0;
